@@ -43,7 +43,13 @@ added - are skipped).
 ORDER INDEPENDENCE (model-free): look-alike formula pairs (f, f') with one subformula replaced by an atom named like its
 printed form, executed in two fresh interpreters in opposite orders; a third of the pairs are CTL pairs in which a
 whole CTL STATE subformula (Or(p,q) -> atom '(p or q)', E X p -> atom named like it) is replaced, so that both
-members go through CTL.modelcheck on the same live structure."""
+members go through CTL.modelcheck on the same live structure.  The same once more UNDER FAIRNESS (85% of the calls carry F, a third
+of the pairs are LTL pairs through LTL.modelcheck, a third of the structures carry the caller's atoms 'fair', 'fair0', ..).
+FRESH-LABEL stream (executed first): histories over 2-4 structures that mostly share ONE shape and differ in which of the
+caller's own atoms 'fair', 'fair0', 'fair1' label some of their states, so that the fresh fairness label picked by
+Kripke.label_fair_states differs between the structures (and changes when the caller adds / discards such an atom); a few
+formulas over p, q of one logic asked again and again, 88% of the calls with F; every answer against the model, which makes
+the same fresh-label choice."""
 from common import *
 from mccheck import *
 LEVEL = 'proof'
@@ -544,12 +550,13 @@ def valid_history(desc, hist):
         return False
 
 
-def gen_relabel(rng, si, sim):
+def gen_relabel(rng, si, sim, atoms=ATOMS):
+    """`atoms`: the atoms a single add / discard is about (the FRESH-LABEL stream adds the caller's atoms 'fair', 'fair0', ..)"""
     s = rng.choice(sim.S)
     cur = sim.L[s]
     r = rng.random()
     if r < 0.55:
-        a = rng.choice(ATOMS)
+        a = rng.choice(atoms)
         via = 'labels.' if rng.random() < 0.6 else 'dict.'
         return {'kind': 'relabel', 's': si, 'route': via + ('discard' if a in cur else 'add'), 'state': s, 'atom': a}
     if r < 0.7:
@@ -594,7 +601,7 @@ def gen_history(rng, desc, maxlen, p_text, p_textp, p_relabel=0.0, p_edit=0.0, p
             # the caller changes (or replaces) a structure, mostly one that was queried already; afterwards re-issue earlier calls on it
             si = rng.choice(calls)['s'] if rng.random() < 0.8 else rng.randrange(len(sims))
             if r < p_relabel:
-                st = gen_relabel(rng, si, sims[si])
+                st = gen_relabel(rng, si, sims[si], tuple(desc.get('atoms') or ATOMS))
                 apply_relabel(sims[si], st)
             elif r < p_relabel + p_edit:
                 st = gen_edit(rng, si, sims[si])
@@ -657,6 +664,66 @@ def gen_churn(rng):
         for _ in range(rng.choice([1, 1, 1, 2])):
             hist.append(gen_step(rng, desc, 0.15, 0.1, sims, si))
     return desc, hist
+
+
+# ---- the caller's own atoms spelled like the library's fresh fairness label ------------------------
+# Kripke.label_fair_states picks the first of 'fair', 'fair0', 'fair1', .. that labels no state: the name depends on the STRUCTURE.
+# Only structures carry these names; the formulas stay over p, q (a formula atom spelled like the label is captured: KF-fair-capture).
+FAIR_NAMES = ('fair', 'fair0', 'fair1')
+FAIR_DECOR = [(), ('fair',), ('fair',), ('fair', 'fair0'), ('fair', 'fair0'), ('fair0',), ('fair', 'fair0', 'fair1'), ('fair', 'fair1')]
+FRESH_FORMULAS = {
+    'CTL': [('E', ('G', ('ap', 'p'))), ('E', ('G', ('true',))), ('E', ('F', ('ap', 'q'))), ('A', ('F', ('ap', 'q'))), ('E', ('X', ('ap', 'p'))),
+            ('E', ('U', ('ap', 'p'), ('ap', 'q'))), ('A', ('G', ('ap', 'p'))), ('A', ('X', ('ap', 'q')))],
+    'LTL': [('A', ('F', ('false',))), ('A', ('F', ('ap', 'q'))), ('A', ('G', ('ap', 'p'))), ('A', ('U', ('ap', 'p'), ('ap', 'q'))), ('A', ('X', ('ap', 'q'))),
+            ('A', ('G', ('or', ('ap', 'p'), ('ap', 'q'))))],
+    'CTLS': [('E', ('G', ('F', ('ap', 'p')))), ('A', ('F', ('G', ('ap', 'q')))), ('E', ('G', ('ap', 'p'))), ('E', ('X', ('E', ('G', ('ap', 'p'))))),
+             ('A', ('G', ('E', ('F', ('ap', 'q')))))],
+}
+
+
+def decorate(rng, kd, names):
+    """the caller's atoms `names` on random states of kd (each on at least one state)"""
+    L = {s: list(v) for s, v in kd['L'].items()}
+    for a in names:
+        for s in [s for s in kd['S'] if rng.random() < 0.4] or [rng.choice(kd['S'])]:
+            L[s] = sorted(set(L[s]) | {a})
+    return dict(kd, L=L)
+
+
+def fresh_label_of(sim):
+    """the label Kripke.label_fair_states will pick on the structure as it is now"""
+    used = set(a for v in sim.L.values() for a in v)
+    name, i = 'fair', 0
+    while name in used:
+        name, i = 'fair%d' % i, i + 1
+    return name
+
+
+def rand_loopy_kripke(rng, m):
+    kd = rand_kripke(rng, m, maxdeg=2)
+    for s in kd['S']:
+        if rng.random() < 0.6 and (s, s) not in kd['R']:
+            kd['R'].append((s, s))
+    return kd
+
+
+def gen_freshlabel(rng):
+    """2-4 structures, most of them ONE shape (states, transitions, p/q labels) that differ only in which of the caller's atoms
+    'fair', 'fair0', 'fair1' they carry on some states - so the fresh fairness label differs from structure to structure - queried
+    mostly WITH fairness constraints, a few formulas (over p, q only) of one logic asked again and again; relabels add / discard
+    the caller's fair-like atoms as well (the fresh label of ONE structure changes between two calls)"""
+    ns = rng.randint(2, 4)
+    base = rand_loopy_kripke(rng, rng.randint(2, 4))
+    structs = []
+    for i in range(ns):
+        kd = base if i == 0 or rng.random() < 0.65 else rand_loopy_kripke(rng, rng.randint(2, 4))
+        names = () if i == 0 and rng.random() < 0.6 else rng.choice(FAIR_DECOR)
+        structs.append(kd_json(decorate(rng, kd, names)))
+    logic = rng.choice(LOGICS)
+    forms = rng.sample(FRESH_FORMULAS[logic], 3) + [gen_formula(rng, 'ALL'), gen_formula(rng, logic)]
+    desc = {'structs': structs, 'formulas': forms, 'alias': [rng.random() < 0.15 for _ in range(ns)], 'objstates': [False] * ns,
+            'atoms': ['p', 'q', 'fair', 'fair', 'fair0']}
+    return desc, gen_history(rng, desc, 14, 0.1, 0.06, p_relabel=0.1, reissue=(1, 2, 3), p_none=0.12)
 
 
 TEXTOP = {'not': 'not', 'or': 'or', 'and': 'and', 'imp': '-->'}
@@ -1238,7 +1305,7 @@ def replay_fair(R, d):
         R.violation('replayed: the answer depends on the fairness container of an earlier call', d)
 
 
-def order_independence(R):
+def order_independence(R, fair=False):
     """"interleaving a call with arbitrary other calls returns an equal set", checked WITHOUT the model on formulas the model is
     not exact for: pairs (f, f') where f' is f with one subformula h replaced by an ATOM whose name is the printed form of h
     (so f and f' print alike: the library compares formulas by printed form, known finding KF-print-a - per call, which is
@@ -1247,14 +1314,30 @@ def order_independence(R):
     module-level closure / result table, a memo table kept per structure - makes the later look-alike inherit the earlier
     one's entry).  Every third pair is a CTL pair: a whole CTL STATE subformula h (a connective, or a quantified
     subformula) of a CTL formula is replaced, so that f' is in CTL as well and both go through CTL.modelcheck (when h is
-    a path operator - the usual case otherwise - f' = E(atom) is outside CTL)"""
-    rng = random.Random(R.seed + 707)
-    nb = npairs = nctl = 0
-    for ep in range(8 if R.thorough else 3):
-        structs = [kd_json(rand_kripke(rng, rng.randint(2, 4))) for _ in range(3)]
+    a path operator - the usual case otherwise - f' = E(atom) is outside CTL).
+    fair=True: the same UNDER FAIRNESS - 85% of the calls carry F (mostly one singleton set; structures with many self loops, so
+    that the constraints bite), every third pair is an LTL pair A g / A g' called through LTL.modelcheck, every third a CTL
+    state-subformula pair through CTL.modelcheck, and a third of the structures carry the caller's own atoms 'fair', 'fair0', ..
+    on some states (the fresh fairness label differs between structures): anything that outlives a call and is keyed by the
+    formula, with or without the fairness label - a table of fairness translations / restricted rewritings - shows here"""
+    rng = random.Random(R.seed + (717 if fair else 707))
+    nb = npairs = nctl = nltl = nF = 0
+    for ep in range((6 if R.thorough else 2) if fair else (8 if R.thorough else 3)):
+        if fair:
+            structs = [kd_json(decorate(rng, rand_loopy_kripke(rng, rng.randint(2, 4)), rng.choice(FAIR_DECOR) if rng.random() < 0.34 else ()))
+                       for _ in range(3)]
+        else:
+            structs = [kd_json(rand_kripke(rng, rng.randint(2, 4))) for _ in range(3)]
         forms, hist = [], []
         for pi in range(12):
-            if pi % 3 == 0:
+            if fair and pi % 3 == 1:
+                while True:
+                    f = gen_formula(rng, 'LTL')
+                    subs = [h for h in subformulas(f) if h[0] not in ('ap', 'true', 'false') and h != f and h[0] not in ('A', 'E')]
+                    if subs:
+                        break
+                logic = 'LTL'
+            elif pi % 3 == 0:
                 while True:
                     f = gen_formula(rng, 'CTL')
                     subs = [h for h in subformulas(f) if h[0] in ('not', 'or', 'and', 'imp', 'A', 'E') and h != f]
@@ -1275,12 +1358,18 @@ def order_independence(R):
             both = len(pair) == 2 and all(in_logic(logic, g) for g in pair)
             npairs += both
             nctl += both and logic == 'CTL'
+            nltl += both and logic == 'LTL'
             for g in pair:
                 if not in_logic(logic, g):
                     continue
                 forms.append(g)
                 for si in rng.sample(range(3), 2):
-                    hist.append({'logic': logic, 's': si, 'f': len(forms) - 1, 'mode': 'obj', 'F': None})
+                    F = None
+                    if fair and rng.random() < 0.85:
+                        S = structs[si]['S']
+                        F = [[rng.choice(S)]] if rng.random() < 0.6 else [sorted(x for x in S if rng.random() < 0.4) for _ in range(rng.randint(1, 2))]
+                        nF += 1
+                    hist.append({'logic': logic, 's': si, 'f': len(forms) - 1, 'mode': 'obj', 'F': F})
         desc = {'structs': structs, 'formulas': forms, 'alias': [False] * 3, 'objstates': [False] * 3}
         rng.shuffle(hist)
         o1, _ = exec_history_fresh(desc, hist)
@@ -1294,13 +1383,14 @@ def order_independence(R):
             if a['res'] != b['res']:
                 nb += 1
                 if nb <= 3:
-                    R.violation('the answer of a call depends on which calls were made before it in the same process',
+                    R.violation('the answer of a call%s depends on which calls were made before it in the same process' % (' under fairness' if fair else ''),
                                 {'stream': 'order independence', 'pool': desc, 'history': hist, 'step': j, 'call': step_str(desc, st),
                                  'answer_in_this_order': a['res'], 'answer_in_reversed_order': b['res']})
             else:
-                R.count('order_independent_calls')
-    R.cov['order_independence'] = {'differences': nb, 'look_alike_pairs_with_both_members_called': npairs,
-                                   'of_which_both_through_CTL.modelcheck': nctl}
+                R.count('order_independent_calls_under_fairness' if fair else 'order_independent_calls')
+    R.cov['order_independence_under_fairness' if fair else 'order_independence'] = {
+        'differences': nb, 'look_alike_pairs_with_both_members_called': npairs, 'of_which_both_through_CTL.modelcheck': nctl,
+        'of_which_both_through_LTL.modelcheck': nltl, 'calls_with_F': nF}
 
 
 def run(R):
@@ -1336,24 +1426,36 @@ def run(R):
               'EX/AX-type formulas + 1 A-op + 1 CTL + 1 LTL + 1 CTL* formula, every answer compared with the model.  ORDER INDEPENDENCE '
               '(model-free, quick 3 / thorough 8 episodes of 12 look-alike pairs (f, f with a subformula replaced by an atom named like its '
               'printed form), each member called on 2 of 3 structures, in two fresh interpreters in opposite orders; every third pair replaces a '
-              'whole CTL state subformula so that both members go through CTL.modelcheck) FAIRNESS CONTAINERS: episodes of 6-12 back-to-back calls that differ only in F, the container being a temporary of the call expression (list of sets / tuple of frozensets, garbage before the next one is built) or ONE list that the caller edits in place between the calls (slice assignment / its sets cleared and refilled); every answer against the model on the same arguments.')
+              'whole CTL state subformula so that both members go through CTL.modelcheck) FAIRNESS CONTAINERS: episodes of 6-12 back-to-back calls that differ only in F, the container being a temporary of the call expression (list of sets / tuple of frozensets, garbage before the next one is built) or ONE list that the caller edits in place between the calls (slice assignment / its sets cleared and refilled); every answer against the model on the same arguments.  FRESH-LABEL stream (quick 60 / thorough 500 episodes, EXECUTED FIRST so that a finding is reproduced with a prelude of its own stream): 2-4 loopy structures of 2-4 states, 65% of them ONE shape (states, transitions, p/q labels), each decorated with a random subset of the OWN atoms of the caller fair / fair0 / fair1 on random states (the fresh label that Kripke.label_fair_states picks - fair, fair0, fair1, fair2 - differs between structures of one history; histogram in cov), pool = 3 fixed-list formulas of one logic + 1 A-op + 1 random formula of that logic, all over p, q only (KF-fair-capture is about FORMULA atoms), histories <= 14 steps, 88% of the calls with F, 10% relabels whose single add / discard is about p, q, fair, fair0 (the fresh label of ONE structure changes between calls), every answer against ctlf / ltlf / ctlsf of the model on the current presentation.  ORDER INDEPENDENCE UNDER FAIRNESS (model-free, quick 2 / thorough 6 episodes of 12 look-alike pairs on 3 loopy structures, a third of them decorated with fair / fair0 / fair1): 85% of the calls carry F (60% one singleton set), pairs cycle CTL state-subformula pair through CTL.modelcheck / LTL pair through LTL.modelcheck / random logic; two fresh interpreters in opposite orders.')
     rng = R.rng
     if R.thorough:
         n_hist, maxlen, p_text, p_textp, p_relabel, p_edit, p_rebuild, n_churn = 2500, 40, 0.08, 0.2, 0.05, 0.04, 0.01, 300
-        n_evolving = 400
+        n_evolving, n_fresh = 400, 500
     else:
         n_hist, maxlen, p_text, p_textp, p_relabel, p_edit, p_rebuild, n_churn = 320, 12, 0.2, 0.16, 0.12, 0.08, 0.02, 40
-        n_evolving = 120
-    runs = []
+        n_evolving, n_fresh = 120, 60
+    runs, executed = {}, []
     all_cmds = set()
     parse_checks = {}
     rng_churn = random.Random(R.seed + 7070)
+    rng_fresh = random.Random(R.seed + 7272)
     rebuilds = [0, 0]
-    for h in range(n_hist + n_evolving + n_churn):
+    fresh_cov = {}
+
+    def stream_of(ri):
+        return ('general' if ri < n_hist else 'evolving' if ri < n_hist + n_evolving else
+                'churn' if ri < n_hist + n_evolving + n_churn else 'freshlabel')
+    n_ded = n_hist + n_evolving + n_churn
+    # EXECUTION order: the fresh-label episodes first (what they find does then not depend on module-level state left by hundreds of
+    # general histories: a failing episode is reproduced and shrunk with a prelude of a few episodes of its own stream)
+    for h in list(range(n_ded, n_ded + n_fresh)) + list(range(n_ded)):
         if h < n_hist:
             desc = gen_pool(rng)
             desc = json.loads(json.dumps(desc))          # exactly what a replay will see
             hist = gen_history(rng, desc, maxlen, p_text, p_textp, p_relabel, p_edit, p_rebuild)
+        elif stream_of(h) == 'freshlabel':
+            desc, hist = gen_freshlabel(rng_fresh)
+            desc = json.loads(json.dumps(desc))
         else:
             desc, hist = (gen_evolving if h < n_hist + n_evolving else gen_churn)(rng_churn)
             desc = json.loads(json.dumps(desc))
@@ -1365,11 +1467,25 @@ def run(R):
         all_cmds.update(c for c in cmds if c is not None)
         for (fi, plang), t in pool.texts.items():
             parse_checks[sx_str(['parse', plang, Q(t)])] = (plang, t, pool.F[fi])
-        runs.append((desc, hist, obs, cmds))
+        runs[h] = (desc, hist, obs, cmds)
+        executed.append(h)
         rebuilds[0] += pool.rebuilds
         rebuilds[1] += pool.rebuilds_same_address
         if h >= n_hist:
-            R.count('evolving_design_episodes' if h < n_hist + n_evolving else 'churn_episodes')
+            R.count({'evolving': 'evolving_design_episodes', 'churn': 'churn_episodes', 'freshlabel': 'fresh_label_episodes'}[stream_of(h)])
+        if stream_of(h) == 'freshlabel':
+            # coverage: the fresh label of every call with F, and formulas asked (with F, one entry point) under two different fresh labels
+            sims, seen = sims_of(desc), {}
+            for st in hist[:len(obs)]:
+                if st.get('kind') == 'relabel':
+                    apply_relabel(sims[st['s']], st)
+                elif is_call(st) and st['F'] is not None:
+                    lab = fresh_label_of(sims[st['s']])
+                    fresh_cov[lab] = fresh_cov.get(lab, 0) + 1
+                    seen.setdefault((st['logic'], st['f']), set()).add(lab)
+            n2 = sum(1 for v in seen.values() if len(v) >= 2)
+            fresh_cov['(entry point, formula) asked under >= 2 different fresh labels in one history'] = \
+                fresh_cov.get('(entry point, formula) asked under >= 2 different fresh labels in one history', 0) + n2
     R.cov['structures_discarded_and_rebuilt'] = {'rebuilds': rebuilds[0], 'new_object_at_the_address_of_the_discarded_one': rebuilds[1]}
     # the text given to a text call denotes, for the MODEL parser of the language whose parser is used, the formula
     # the model checker is asked about (a failure here is a defect of this check's printer, not of the library)
@@ -1382,13 +1498,15 @@ def run(R):
     expectations(sorted(all_cmds))
     R.cov['model_commands_distinct'] = len(all_cmds)
     order_independence(R)
+    order_independence(R, fair=True)
     fair_containers(R)
-    shrunk = {'general': 0, 'evolving': 0, 'churn': 0}
+    R.cov['fresh_fairness_label_of_calls_with_F_in_the_fresh_label_stream'] = fresh_cov
+    shrunk = {'general': 0, 'evolving': 0, 'churn': 0, 'freshlabel': 0}
     # verdicts: the two dedicated streams (short, self-contained episodes: the most readable counterexamples) first, then the
     # general histories; `earlier` (candidates for a prelude) is always the prefix in EXECUTION order
-    for ri in list(range(n_hist, len(runs))) + list(range(min(n_hist, len(runs)))):
+    for ri in [k for k in list(range(n_ded, n_ded + n_fresh)) + list(range(n_hist, n_ded)) + list(range(n_hist)) if k in runs]:
         desc, hist, obs, cmds = runs[ri]
-        stream = 'general' if ri < n_hist else 'evolving' if ri < n_hist + n_evolving else 'churn'
+        stream = stream_of(ri)
         exps = expectations(cmds)
         R.evaluations += len(obs)
         R.count('histories')
@@ -1420,7 +1538,7 @@ def run(R):
                 bad = j
                 break
         if bad is not None:
-            report(R, desc, hist, obs, exps, bad, shrunk[stream] < (3 if stream == 'general' else 2), [(d, h) for d, h, _, _ in runs[:ri]])
+            report(R, desc, hist, obs, exps, bad, shrunk[stream] < (3 if stream == 'general' else 2), [runs[k][:2] for k in executed[:executed.index(ri)]])
             shrunk[stream] += 1
             if len(R.violations) >= 25:
                 break
@@ -1490,7 +1608,7 @@ def report(R, desc, hist, obs, exps, j, do_shrink, earlier):
         except Exception as ex:  # noqa
             data['shrink_failed'] = repr(ex)
     else:
-        data['not_shrunk'] = ('only the first 3 failing general histories (and the first 2 of the evolving-design and of the churn stream) of a run are re-run in fresh interpreters and shrunk; if this one depends on '
+        data['not_shrunk'] = ('only the first 3 failing general histories (and the first 2 of the fresh-label, of the evolving-design and of the churn stream) of a run are re-run in fresh interpreters and shrunk; if this one depends on '
                               'module-level state left by EARLIER histories of the run, its replay alone does not reproduce it')
     ncalls = (sum(1 for s in data['history'][:-1] if is_call(s))
               + sum(1 for e in data['prelude'] for s in e['hist'] if is_call(s)))
